@@ -287,15 +287,20 @@ func (r *Runner) finish(sp *Sprint) {
 	r.Sprints = append(r.Sprints, sp)
 }
 
+// RestartError reports that a session marshalled by the engine could not be marshalled or read back.
+type RestartError struct{ Err error }
+
+func (e *RestartError) Error() string { return e.Err.Error() }
+
 // Restart marshals the session and reads it back against the current assets.
 func (r *Runner) Restart() error {
 	b, err := json.Marshal(r.Session)
 	if err != nil {
-		return fmt.Errorf("session does not marshal: %w", err)
+		return &RestartError{fmt.Errorf("session does not marshal: %w", err)}
 	}
 	s, err := r.Engine.ReadSession(r.Assets, b, r.missing)
 	if err != nil {
-		return fmt.Errorf("session does not read back: %w", err)
+		return &RestartError{fmt.Errorf("session does not read back: %w", err)}
 	}
 	r.Session = s
 	return nil
